@@ -294,3 +294,11 @@ Print Assumptions C18_watch_matcher_sound.
 Print Assumptions C18_watch_matcher_rejections_genuine.
 Print Assumptions C18_future_matcher_sound.
 Print Assumptions C18_lazy_matcher_sound.
+
+(* Tie to the source: the Go functions the model transcribes still contain exactly the synchronisation operations
+   (select arms, channel operations, goroutine starts, timer/context/sync calls) the model accounts for.
+   Generated/Census.v is re-extracted from the Go source on every run (tools/gofacts/census.go). *)
+From Juniper Require Translated.CensusC18.
+Theorem C18_source_census : Translated.CensusC18.census_expected_C18.
+Proof. exact Translated.CensusC18.census_C18_ok. Qed.
+Print Assumptions C18_source_census.
